@@ -34,6 +34,13 @@ def families(seed):
         ("log8", [4 + s, 3, 2**32 - 2, 15]),
         ("log8", [4 + s, 3, 2**32 - 1, 14]),
         ("log8", [4 + s, 3, 10**6, 15]),
+        # neighbouring LARGE max_counts: the derived float base is identical, max_count is not
+        ("log16", [4 + s, 3, 2**60, 1023]),
+        ("log16", [4 + s, 3, 2**60 + 1, 1023]),
+        ("log8", [4 + s, 3, 2**53, 15]),
+        ("log8", [4 + s, 3, 2**53 + 1, 15]),
+        ("log8", [4 + s, 3, 2**64 - 1, 15]),
+        ("log8", [4 + s, 3, 2**64 - 2, 15]),
     ]
     hll = [
         ("hll", [8, 0]),
@@ -60,7 +67,7 @@ def compat_key(kind, args):
     if kind == "linear":
         return ("linear", args[0], args[1])
     if kind in ("log16", "log8"):
-        d = {"log16": (2**32 - 1, 1023), "log8": (2**32 - 1, 15)}[kind]
+        d = {"log16": (2**32 - 1, 1023), "log8": (2**32 - 1, 15)}[kind]  # constructor defaults
         mc = args[2] if len(args) > 2 else d[0]
         nr = args[3] if len(args) > 3 else d[1]
         return (kind, args[0], args[1], mc, nr)
